@@ -243,16 +243,37 @@ func (x *Exec) callWrites(c *ssa.CallCommon, ws *WriteSet, visiting map[*ssa.Fun
 		ws.why = "dynamic call " + c.Value.Name()
 		return
 	}
+	// lock operations write the lock-set component of their (statically known) mutex
+	if k := fnKey(fn); strings.HasPrefix(k, "(*sync.Mutex).") || strings.HasPrefix(k, "(*sync.RWMutex).") {
+		if len(c.Args) == 1 {
+			if pt, ok := c.Args[0].Type().Underlying().(*types.Pointer); ok {
+				_ = pt
+				_, root, path, local := x.storeTarget(c.Args[0])
+				if !local {
+					for _, pre := range []string{"L|", "R|"} {
+						lk := pre + typeKey(root) + "|" + pathString(root, path)
+						x.keyInfo[lk] = compInfo{sort: "(Array Int Bool)"}
+						ws.keys[lk] = true
+					}
+				}
+			}
+		}
+		return
+	}
 	ws.add(x.effectsRec(fn, visiting))
 }
 
 func (x *Exec) contractWrites(ctr *Contract, fn *ssa.Function, ws *WriteSet, visiting map[*ssa.Function]bool) {
+	for _, lg := range ctr.Appends {
+		nk, ek := x.logKeys(lg)
+		ws.keys[nk], ws.keys[ek] = true, true
+	}
 	switch {
 	case ctr.Pure:
 	case ctr.ModAll:
 		ws.all = true
 		ws.why = "modifies * of " + ctr.Key
-	case len(ctr.Modifies) > 0 || fn == nil || len(fn.Blocks) == 0 || ctr.Ext:
+	case len(ctr.Modifies) > 0 || ctr.Trusted || fn == nil || len(fn.Blocks) == 0 || ctr.Ext:
 		for _, m := range ctr.Modifies {
 			for _, k := range x.modifiesKeys(m) {
 				ws.keys[k] = true
@@ -358,6 +379,9 @@ func (x *Exec) modifiesKeys(m string) []string {
 	switch {
 	case m == "*":
 		return nil
+	case strings.HasPrefix(m, "ghostlog."):
+		nk, ek := x.logKeys(strings.TrimPrefix(m, "ghostlog."))
+		return []string{nk, ek}
 	case strings.HasPrefix(m, "ghost."):
 		k := "G|" + strings.TrimPrefix(m, "ghost.")
 		x.keyInfo[k] = compInfo{sort: "Int"}
